@@ -29,9 +29,10 @@ def _ddmin(items, test, budget):
 
 def shrink(mod, prop, sub, case, kidx, max_evals=400):
     from .runner import Recorder, run_one
+    from . import findings as _f
 
     def failing(c):
-        rec = Recorder(prop, kidx)
+        rec = Recorder(prop, kidx, _f.Index(_f.load()[0]))
         try:
             fails = run_one(mod, c, rec)
         except Exception:
